@@ -247,6 +247,14 @@ def run(rep):
         hit = [r for r in errs if cq.holds(r[1], f"aggindex[{kv}] < IAPREV", True) and feasible(r[1])]
         rep.check(bool(hit), "R08.a", file, kname, "the rejection compares the current index with the index of the previous iteration (not yet overwritten)",
                   f"{len(errs)} error return(s), none under `aggindex[{kv}] < <previous index>`", line=kline)
+        # every way through one iteration decides the order test: a path that completes (falls through or `continue`s) without it lets a
+        # decreasing index pass at the positions that take that path
+        done = [f_ for f_ in rce.finals if f_[2] in ("end", "ContinueStmt")]
+        skipping = [f_ for f_ in done if not cq.excluded(f_[1], f"aggindex[{kv}] < IAPREV", True) and feasible(f_[1])]
+        if done:
+            rep.check(not skipping, "R08.a", file, kname, "no iteration completes without the index-order test (an index that decreases ANYWHERE is rejected)",
+                      f"{len(skipping)} of {len(done)} path(s) through the loop body skip it, e.g. under " +
+                      (" & ".join(("" if t_ else "not ") + show(c_)[:50] for c_, t_ in skipping[0][1][:3]) if skipping else ""), line=kline, firm=True)
     badh, nh = [], 0
     wb_ref = {}
     for G, N, X in itertools.product([True, False], repeat=3):
